@@ -162,3 +162,32 @@ def next_line_bookkeeping_contract(s):
         check("line_text_recorded", len(s.file.lines) == nlines + 1 and s.file.lines[nlines] == s.input[lo0:p0])
     else:
         check("same_line", s.pos == p0 + 1 and s.line_offset == lo0 and s.current_line == cl0 and len(s.file.lines) == nlines)
+
+
+# ------------------------------------------------------------------------------------------------ exact token positions after any layout (C17)
+def scan_positions_contract(s, name, text, expected_types, expected_lines, expected_columns, error_line, error_column):
+    """The real Scanner.scan on a text made of ANY number of blank lines, ANY indentation, an optional preceding statement with a comment of
+    ANY text, then the statement of interest: every token carries the zero-based line (= number of line ends before it) and the column
+    (= offset in its line) of its first character, in the scanned file; when the statement is lexically wrong, the ScannerException carries
+    the position of the offending character."""
+    try:
+        toks = s.scan(name, text)
+    except ScannerException as e:
+        check("error_expected", error_line is not None)
+        if error_line is not None:
+            check("error_line", e.position.line == error_line)
+            check("error_column", e.position.column == error_column)
+            check("error_file", e.position.file is s.file)
+        return
+    check("no_error_expected", error_line is None)
+    check("same_number_of_tokens", len(toks) == len(expected_types))
+    if len(toks) != len(expected_types):
+        return
+    i = 0
+    for t in toks:
+        check("token_type", t.type == expected_types[i])
+        if expected_lines[i] is not None:
+            check("token_line", t.position.line == expected_lines[i])
+            check("token_column", t.position.column == expected_columns[i])
+            check("token_file", t.position.file is s.file)
+        i = i + 1
